@@ -21,6 +21,7 @@ import (
 	"github.com/fullstorydev/grpchan/inprocgrpc"
 	"google.golang.org/grpc"
 	"google.golang.org/grpc/codes"
+	"google.golang.org/grpc/credentials"
 	"google.golang.org/grpc/credentials/insecure"
 	"google.golang.org/grpc/metadata"
 	"google.golang.org/grpc/status"
@@ -38,8 +39,9 @@ func inconclusive(f string, a ...interface{}) {
 // ---------------------------------------------------------------- what the handler saw / did
 
 type runState struct {
-	id string
-	c  Case
+	id   string
+	c    Case
+	plan *callPlan // part reuse: the metadata calls of this call, with the application's own objects (nil: from the case)
 
 	mu       sync.Mutex
 	reached  bool
@@ -65,6 +67,31 @@ func (rs *runState) reach(ctx context.Context) {
 	rs.mu.Unlock()
 }
 
+// callPlan replaces what headerOps / trailerOps / outgoingContext derive from the case: the calls of one member of a
+// call sequence, made with metadata objects that outlive the call (reuse.go).
+type callPlan struct {
+	hdr, trlEarly, trlLate []mdOp
+	ctx                    context.Context // the caller's outgoing context (nil: from the case)
+	creds                  credentials.PerRPCCredentials
+}
+
+func (rs *runState) ops() (hdr, early, late []mdOp) {
+	if rs.plan != nil {
+		return rs.plan.hdr, rs.plan.trlEarly, rs.plan.trlLate
+	}
+	early, late = trailerOps(rs.c)
+	return headerOps(rs.c), early, late
+}
+
+// arg: what is handed to the library (a copy made for this call, or the application's long-lived object itself) and
+// what the application put into it.
+func (op mdOp) arg() (handed, want metadata.MD) {
+	if op.Live {
+		return op.MD, op.Want
+	}
+	return op.MD.Copy(), op.MD
+}
+
 func accumulate(into map[string][]string, md metadata.MD) {
 	for k, vs := range md {
 		into[k] = append(into[k], vs...)
@@ -75,23 +102,24 @@ func (rs *runState) headerCalls(ops []mdOp, ss grpc.ServerStream, ctx context.Co
 	for i, op := range ops {
 		var err error
 		name := ""
+		md, want := op.arg()
 		switch {
 		case op.Ctx || ss == nil:
 			if op.Send {
-				name, err = "grpc.SendHeader", grpc.SendHeader(ctx, op.MD.Copy())
+				name, err = "grpc.SendHeader", grpc.SendHeader(ctx, md)
 			} else {
-				name, err = "grpc.SetHeader", grpc.SetHeader(ctx, op.MD.Copy())
+				name, err = "grpc.SetHeader", grpc.SetHeader(ctx, md)
 			}
 		case op.Send:
-			name, err = "stream.SendHeader", ss.SendHeader(op.MD.Copy())
+			name, err = "stream.SendHeader", ss.SendHeader(md)
 		default:
-			name, err = "stream.SetHeader", ss.SetHeader(op.MD.Copy())
+			name, err = "stream.SetHeader", ss.SetHeader(md)
 		}
 		rs.mu.Lock()
 		if err != nil {
 			rs.refused = append(rs.refused, fmt.Sprintf("%s#%d: %v", name, i, err))
 		} else {
-			accumulate(rs.hdrSet, op.MD)
+			accumulate(rs.hdrSet, want)
 		}
 		rs.mu.Unlock()
 	}
@@ -101,16 +129,17 @@ func (rs *runState) trailerCalls(ops []mdOp, ss grpc.ServerStream, ctx context.C
 	for i, op := range ops {
 		var err error
 		name := "stream.SetTrailer"
+		md, want := op.arg()
 		if op.Ctx || ss == nil {
-			name, err = "grpc.SetTrailer", grpc.SetTrailer(ctx, op.MD.Copy())
+			name, err = "grpc.SetTrailer", grpc.SetTrailer(ctx, md)
 		} else {
-			ss.SetTrailer(op.MD.Copy())
+			ss.SetTrailer(md)
 		}
 		rs.mu.Lock()
 		if err != nil {
 			rs.refused = append(rs.refused, fmt.Sprintf("%s#%d: %v", name, i, err))
 		} else {
-			accumulate(rs.trlSet, op.MD)
+			accumulate(rs.trlSet, want)
 		}
 		rs.mu.Unlock()
 	}
@@ -152,8 +181,8 @@ func (w *worker) unary(ctx context.Context, dec func(interface{}) error) (interf
 		return nil, status.Error(codes.Aborted, "stale case")
 	}
 	rs.reach(ctx)
-	rs.headerCalls(headerOps(rs.c), nil, ctx)
-	early, late := trailerOps(rs.c)
+	hdr, early, late := rs.ops()
+	rs.headerCalls(hdr, nil, ctx)
 	rs.trailerCalls(early, nil, ctx)
 	rs.trailerCalls(late, nil, ctx)
 	if rs.c.Fail {
@@ -187,8 +216,8 @@ func (w *worker) stream(clientStreams bool) common.StreamFn {
 				}
 			}
 		}
-		rs.headerCalls(headerOps(rs.c), ss, ctx)
-		early, late := trailerOps(rs.c)
+		hdr, early, late := rs.ops()
+		rs.headerCalls(hdr, ss, ctx)
 		rs.trailerCalls(early, ss, ctx)
 		n := rs.c.NResp
 		if rs.c.Kind == "CS" && !rs.c.Fail {
@@ -423,13 +452,17 @@ var streamDescs = map[string]*grpc.StreamDesc{
 	"BD": {StreamName: "BD", ClientStreams: true, ServerStreams: true},
 }
 
-func (w *worker) drive(cc grpc.ClientConnInterface, c Case, id string) (obs observation) {
+func (w *worker) drive(cc grpc.ClientConnInterface, c Case, id string, plan *callPlan) (obs observation) {
 	defer func() {
 		if p := recover(); p != nil {
 			obs.panicked = fmt.Sprintf("client side: %v\n%s", p, debug.Stack())
 		}
 	}()
-	ctx, cancel := context.WithCancel(outgoingContext(c))
+	base := outgoingContext(c)
+	if plan != nil && plan.ctx != nil {
+		base = plan.ctx
+	}
+	ctx, cancel := context.WithCancel(base)
 	defer cancel()
 	obs.hdrOpts = make([]metadata.MD, c.Opts)
 	obs.trlOpts = make([]metadata.MD, c.Opts)
@@ -439,6 +472,9 @@ func (w *worker) drive(cc grpc.ClientConnInterface, c Case, id string) (obs obse
 	}
 	if len(c.Creds) > 0 {
 		opts = append(opts, grpc.PerRPCCredentials(staticCreds(c.credsMap())))
+	}
+	if plan != nil && plan.creds != nil {
+		opts = append(opts, grpc.PerRPCCredentials(plan.creds))
 	}
 	req := wrapperspb.String(id)
 	if c.Kind == "U" {
@@ -491,16 +527,18 @@ func (w *worker) drive(cc grpc.ClientConnInterface, c Case, id string) (obs obse
 	return obs
 }
 
-func (w *worker) run(c Case) (*runState, observation) {
+func (w *worker) run(c Case) (*runState, observation) { return w.runPlan(c, nil) }
+
+func (w *worker) runPlan(c Case, plan *callPlan) (*runState, observation) {
 	w.seq++
 	id := fmt.Sprintf("%s-%d", w.name, w.seq)
-	rs := &runState{id: id, c: c, hdrSet: map[string][]string{}, trlSet: map[string][]string{}}
+	rs := &runState{id: id, c: c, plan: plan, hdrSet: map[string][]string{}, trlSet: map[string][]string{}}
 	w.curDesc.Store(c.String())
 	w.cur.Store(rs)
 	w.busy.Store(true)
 	cc := w.conn(c.Transport)
 	t0 := time.Now()
-	obs := w.drive(cc, c, id)
+	obs := w.drive(cc, c, id, plan)
 	if w.spent == nil {
 		w.spent = map[string]time.Duration{}
 	}
